@@ -273,6 +273,13 @@ def check_worlds(ctx, binary, tmpl, ids, cases, packed_of, n_lsremote, n_banner)
         n += 2
     ctx.cov["git_ls_remote_audited"] = ctx.cov.get("git_ls_remote_audited", 0) + n
     ctx.cov["wire_audited_conversations"] = ctx.cov.get("wire_audited_conversations", 0) + len(audit_ev)
+    classes = {}
+    for v in ctx.violations:
+        k = "%s head=%s %s" % ("/".join(v.get("classes", [])), v.get("head"), (v.get("err") or "")[:80])
+        classes[k] = classes.get(k, 0) + 1
+    ctx.cov["violation_classes"] = classes
+    if classes:
+        ctx.log("violation classes: %s" % json.dumps(classes, sort_keys=True))
     return paths
 
 
